@@ -4,6 +4,7 @@ use serde_json::Value;
 
 use crate::report::{CheckInfo, Partial, Tier, Violation};
 
+pub mod c16;
 pub mod c19;
 
 pub struct CheckDef {
@@ -17,7 +18,7 @@ pub struct CheckDef {
 }
 
 pub fn all() -> Vec<CheckDef> {
-    vec![c19::def()]
+    vec![c16::def(), c19::def()]
 }
 
 pub fn cores() -> usize {
